@@ -1,5 +1,92 @@
+import PsiModel.Extract
 import Drivers.Common
-/-! Stub: replaced by the driver of the `Extract` model. -/
+/-!
+Line protocol of the `extract` model (C05/C06).
+
+  new <bufferSamples> <showKeys 0|1>
+  data <v0>:<n> <reqs> <rems> <complete 0|1>
+  rt <K0> <k> <P>            (C06: predicted extractor sample for queue clock k, start K0, prestim P)
+      chunk = cells v0 .. v0+n-1 ; reqs = key:s:len:tag,... | - ; rems = key,... | -
+
+Answer to `data`: `ok <items> done=<0|1>` | `err ValueError` | `dead`, where items is `-`
+or the `;`-joined, sorted list of delivered epochs, each `k<key>t<tag>=<cells>` (`t<tag>=M` for a missed marker; or just
+`<cells>` when showKeys = 0); cells is `M` (missed marker), `E` (empty) or `/`-joined runs
+`first+count` of consecutive cell ids.
+-/
 namespace Psi.Driver.Extract
-def main : IO Unit := pure ()
+open Psi.Driver Psi.Extract
+
+def runs : List Int → List (Int × Nat)
+  | [] => []
+  | x :: xs =>
+    match runs xs with
+    | (y, n) :: rest => if y = x + 1 then (x, n + 1) :: rest else (x, 1) :: (y, n) :: rest
+    | [] => [(x, 1)]
+
+def showCells (e : Epoch Int) : String :=
+  if e.missed then "M" else
+  if e.data.isEmpty then "E" else
+  "/".intercalate ((runs e.data).map fun (a, n) => s!"{a}+{n}")
+
+def showEpoch (keys : Bool) (e : Epoch Int) : String :=
+  if keys then
+    -- the "missed" marker carries `md` only (no `info`, hence no key)
+    if e.missed then s!"t{e.req.tag}=M" else s!"k{e.req.key}t{e.req.tag}={showCells e}"
+  else showCells e
+
+def insertSorted (s : String) : List String → List String
+  | [] => [s]
+  | x :: xs => if s ≤ x then s :: x :: xs else x :: insertSorted s xs
+
+def sortStrings (l : List String) : List String := l.foldr insertSorted []
+
+def parseReq? (s : String) : Option Request :=
+  match s.splitOn ":" with
+  | [k, st, n, t] => do
+    pure { key := (← parseNat? k), s := (← parseInt? st), len := (← parseNat? n), tag := (← parseNat? t) }
+  | _ => none
+
+def parseChunk? (s : String) : Option (List Int) :=
+  match s.splitOn ":" with
+  | [v, n] => do
+    let v ← parseInt? v
+    let n ← parseNat? n
+    pure ((List.range n).map fun (i : Nat) => v + Int.ofNat i)
+  | _ => none
+
+structure DState where
+  st : State Int
+  keys : Bool
+
+def init : DState := { st := State.init 0, keys := true }
+
+def step (d : DState) (ws : List String) : DState × String :=
+  match ws with
+  | ["new", b, k] =>
+    match parseNat? b, k with
+    | some b, "0" => ({ st := State.init b, keys := false }, "ok")
+    | some b, "1" => ({ st := State.init b, keys := true }, "ok")
+    | _, _ => (d, "bad-op")
+  | ["rt", k0, k, pp] =>
+    -- C06 float-level stream: the integer the queue means, K0 + k, minus the prestim samples
+    match parseNat? k0, parseNat? k, parseNat? pp with
+    | some k0, some k, some pp => (d, s!"ok {(k0 : Int) + (k : Int) - (pp : Int)}")
+    | _, _, _ => (d, "bad-op")
+  | ["data", ch, rq, rm, cp] =>
+    match parseChunk? ch, (commaList rq).mapM parseReq?, parseNats? rm, cp with
+    | some chunk, some reqs, some rems, c =>
+      if c != "0" && c != "1" then (d, "bad-op") else
+      let (st', out) := Psi.Extract.step d.st { chunk := chunk, reqs := reqs, rems := rems, complete := c == "1" }
+      let s := match out with
+        | .ok batch fired =>
+          let items := sortStrings (batch.map (showEpoch d.keys))
+          let body := if items.isEmpty then "-" else ";".intercalate items
+          s!"ok {body} done={if fired then 1 else 0}"
+        | .valueError => "err ValueError"
+        | .dead => "dead"
+      ({ d with st := st' }, s)
+    | _, _, _, _ => (d, "bad-op")
+  | _ => (d, "bad-op")
+
+def main : IO Unit := run init step
 end Psi.Driver.Extract
